@@ -59,6 +59,19 @@ def rand_zone_instant(rng):
     return t + rng.randrange(-3 * 3600 * 10**6, 3 * 3600 * 10**6) // 1000 * 1000 + rng.choice([0, 0, 1, 999, 500]), zone
 
 
+def maybe_zone(rng, base, unit, p=0.05):
+    """(base, unit, zone): now and then the grid is moved to the hours around a DST transition of an IANA zone and the
+    events are to be built from aware datetimes of that zone (zone is None otherwise): an event of a few grid units then
+    spans the clock change, where wall-clock arithmetic and instant arithmetic differ by an hour. Three of the zones are
+    at UTC offset 0 in winter (a zone at offset zero is not UTC)."""
+    if rng.random() >= p or not zones_available():
+        return base, unit, None
+    zone = rng.choice(ZONE_NAMES + ["Europe/London", "Europe/Lisbon"])
+    unit = rng.choice([20 * 60 * 10**6, 30 * 60 * 10**6, 3600 * 10**6])
+    base = rng.choice(ZONE_TRANSITIONS[zone]) * 10**6 - rng.randrange(1, 7) * unit
+    return base, unit, zone
+
+
 MAX_US = dt_us(datetime(2100, 1, 1, tzinfo=timezone.utc))
 DAY_US = 86400 * 10**6
 
